@@ -62,6 +62,11 @@ func genC19(t *rapid.T) *C19Case {
 			h.Modify = true
 			h.Body = rapid.Bool().Draw(t, "hBody")
 		}
+		if h.Dir == "in" && rapid.IntRange(0, 9).Draw(t, "hInRefuses") < 2 {
+			// an incoming handler that returns false now and then
+			h.Mod = rapid.IntRange(1, 4).Draw(t, "hInMod")
+			h.Rem = rapid.IntRange(0, h.Mod-1).Draw(t, "hInRem")
+		}
 		if h.Dir == "out" && rapid.IntRange(0, 9).Draw(t, "hRefuses") < 4 {
 			h.Mod = rapid.IntRange(1, 4).Draw(t, "hMod")
 			h.Rem = rapid.IntRange(0, h.Mod-1).Draw(t, "hRem")
@@ -174,8 +179,11 @@ func checkC19(c *C19Case, rec *evid.Rec) (vs []pbt.Violation) {
 					})
 				} else {
 					ids[i] = h.HandleIncoming(mt, func(data []byte) bool {
-						log.Add(rig.Event{Kind: "handler:in", Name: fmt.Sprint(i), Bytes: append([]byte(nil), data...)})
-						return true
+						k := calls[i]
+						calls[i]++
+						refuse := hs.Mod > 0 && k%hs.Mod == hs.Rem
+						log.Add(rig.Event{Kind: "handler:in", Name: fmt.Sprint(i), Err: refuse, Bytes: append([]byte(nil), data...)})
+						return !refuse
 					})
 				}
 			}
@@ -474,7 +482,7 @@ func checkC19(c *C19Case, rec *evid.Rec) (vs []pbt.Violation) {
 		}
 	}
 	// --- inbound: all-types then own type, registration order ---
-	injects := 0
+	injects, inRefusals := 0, 0
 	for idx, e := range evs {
 		if e.Kind != "inject" {
 			continue
@@ -493,15 +501,41 @@ func checkC19(c *C19Case, rec *evid.Rec) (vs []pbt.Violation) {
 			}
 		}
 		var got []int
+		refusedBy := map[int]bool{}
 		for _, f := range evs[idx+1:] {
 			if f.Kind == "inject" {
 				break
 			}
 			if f.Kind == "handler:in" && bytes.Equal(f.Bytes, e.Bytes) {
 				got = append(got, atoi(f.Name))
+				if f.Err {
+					refusedBy[atoi(f.Name)] = true
+					inRefusals++
+				}
 			}
 		}
-		got, want = dropRemoved(got, e.Order), dropRemoved(want, e.Order)
+		// a handler that returns false ends its own section (all-types / the type's): what
+		// follows it in that section is not judged. The other section is: a message refused
+		// by an all-types handler is still offered to the handlers of its type.
+		cut := func(list []int) (out []int) {
+			cutAll, cutType := false, false
+			for _, i := range list {
+				all := c.Handlers[i].Type == "ALL"
+				if (all && cutAll) || (!all && cutType) {
+					continue
+				}
+				out = append(out, i)
+				if refusedBy[i] {
+					if all {
+						cutAll = true
+					} else {
+						cutType = true
+					}
+				}
+			}
+			return out
+		}
+		got, want = dropRemoved(cut(got), e.Order), dropRemoved(cut(want), e.Order)
 		if fmt.Sprint(got) != fmt.Sprint(want) {
 			vs = append(vs, pbt.V("incoming-handler-order", "inbound %s was offered to incoming handlers %v, expected %v (all-types in registration order, then the type's)", typ, got, want))
 		}
@@ -544,6 +578,9 @@ func checkC19(c *C19Case, rec *evid.Rec) (vs []pbt.Violation) {
 	}
 	if removedAt >= 0 {
 		rec.Hist("application-removes-a-handler")
+	}
+	if inRefusals > 0 {
+		rec.Hist("incoming-handler-refuses")
 	}
 	rec.Hist(fmt.Sprintf("out-handlers=%d", outPool))
 	rec.Hist(fmt.Sprintf("in-handlers=%d", inPool))
